@@ -1662,7 +1662,11 @@ class Engine:
         else:
             elts = [type_node]
         for e in elts:
-            res = self.ev(e, st, fi)
+            pending, st.exc = st.exc, None  # the handler's class expression is evaluated normally (the exception is still pending)
+            try:
+                res = self.ev(e, st, fi)
+            finally:
+                st.exc = pending
             v = res[0][1]
             if not isinstance(v, SClass):
                 raise Unsupported("except clause with non-class")
